@@ -76,7 +76,7 @@ def bind_param(ex, st, p, idx):
     return name, v
 
 
-def verify(contract, scratch, tucache):
+def verify(contract, scratch, tucache, bounded=0, bcase=None):
     """enforce the contract on the function's own body; returns (Exec, info dict)"""
     t0 = time.time()
     tu = tucache.get(contract.tu, getattr(contract, 'tu_filter', 'vfps::'))
@@ -90,6 +90,7 @@ def verify(contract, scratch, tucache):
     for ci, case in enumerate(contract.cases):
         ex = Exec(tu, fn, contract.short() + (f'@{ci}' if len(contract.cases) > 1 else ''))
         ex.aux_tus = aux
+        ex.bounded = bounded
         ex.decl_assume = getattr(contract, 'domain_after', None)
         ex.loops = contract.loops_for(ci) if hasattr(contract, 'loops_for') else contract.loops
         ex.calls = contract.calls
@@ -121,6 +122,9 @@ def verify(contract, scratch, tucache):
         ex.unit_ghosts = dict(ex.ghosts)
         cx0 = Ctx(ex, st, st, args)
         contract.setup(cx0)
+        if bounded and bcase is not None:
+            for f_ in bcase(cx0):
+                st.assume(f_)      # concrete small sizes of this bounded case
         reqs = contract.requires(cx0)
         ex.elem_inv = {}
         for lab, f in reqs:
@@ -191,6 +195,9 @@ def verify(contract, scratch, tucache):
                 raise ExtractionError(f'{contract.name}: stray {flow[0]}')
             ret = flow[1] if flow else None
             cx = Ctx(ex, s, entry, args, ret=ret)
+            if bounded and hasattr(contract, 'bounded_defs'):
+                for f_ in contract.bounded_defs(cx, bounded):
+                    s.assume(f_)        # unfolding instances of the finite-sum definitions (conservative)
             for lab, tags, f in contract.ensures(cx):
                 ex.oblig(s, f'post.{lab}', f, 'postcondition', tags)
                 nposts += 1
